@@ -44,7 +44,10 @@ def heuristic_sites(repo):
     for f in repo.all_functions():
         cls = f.cls.name if f.cls is not None else None
         res = AtomResolver(repo, cls)
-        for n in ast.walk(f.node):
+        # on the canonical form: a local bound once to an attribute path (`thicknesses = model.reserv.layerthickness.value`) is that path
+        from gxstat.inline import canonical_function
+        fnode = canonical_function(f.node, unnest=False) if isinstance(f.node, ast.FunctionDef) else f.node
+        for n in ast.walk(fnode):
             if not isinstance(n, ast.If):
                 continue
             for st in n.body:
@@ -71,7 +74,7 @@ def heuristic_sites(repo):
                     tests = [n.test]
                     up = parent(n)
                     prev = n
-                    while up is not None and up is not f.node:
+                    while up is not None and up is not fnode:
                         if isinstance(up, ast.If) and any(prev is x for x in up.body):
                             tests.append(up.test)
                         prev = up
